@@ -213,10 +213,71 @@ def cuts_for(S, rng, quick):
     return P
 
 
+def validate_write_trace(run, label, writes, layout, initial):
+    """code -> spec: the recorded writes, mapped to cells (header fields, data blocks, footer arrays) by the TLC-emitted layout, must be a
+    behaviour of SgzPartial (Trace_Partial): every byte inside the file is final, or an interim value of a patchable field, at every stop"""
+    import json
+    import re
+    from .. import tlc
+    hb = 8192
+    nblk = int(layout['data_blocks'])
+    offs = [int(o) for o in layout['array_offsets']]
+    data_end = hb + nblk * 4096
+    flen = -(-len(initial or b'') // 4096)          # file length in cells of what the path held after the open
+    ev, patched2 = [], False
+
+    def cells_len(c):
+        nonlocal flen
+        flen = max(flen, c)
+        return flen
+    for w in writes:
+        off, n = w['off'], w['len']
+        if w.get('truncate') is not None:
+            ev.append({'a': 'Presize' if w['truncate'] == data_end and w.get('shrink') is None else 'Unknown', 'len': cells_len(4 + nblk), 'cell': 0})
+        elif off == 0 and n == hb:
+            ev.append({'a': 'Header', 'len': cells_len(4), 'cell': 0})
+        elif off < hb:
+            cell = 3 if off == 960 else 4 if off == 56 else 2 if off in (64, 980) else 0
+            if cell == 2 and patched2:
+                continue            # count and table are one patchable field of the model
+            patched2 = patched2 or cell == 2
+            ev.append({'a': 'Patch' if cell else 'Unknown', 'len': flen, 'cell': cell})
+        elif off < data_end:
+            first, last = (off - hb) // 4096, (off + n - 1 - hb) // 4096
+            for i in range(first, last + 1):
+                ev.append({'a': 'Block', 'len': cells_len(4 + i + 1), 'cell': 0})
+        else:
+            j = max([k for k, o in enumerate(offs) if o <= off], default=None)
+            ev.append({'a': 'Footer' if j is not None and offs[j] == off else 'Unknown', 'len': cells_len(4 + nblk + (j + 1 if j is not None else 0)), 'cell': 0})
+    d = env.subdir('c18t')
+    name = f'_partial_{os.getpid()}_{abs(hash(label)) % 100000}'
+    fin = os.path.join(d, name + '.json')
+    with open(fin, 'w') as f:
+        json.dump({'trace': ev}, f)
+    cfg = os.path.join(env.SPEC, name + '.cfg')
+    with open(cfg, 'w') as f:
+        f.write(f'CONSTANT NBlk = {nblk}\nCONSTANT NArr = {len(offs)}\nCONSTANT Patch = {"TRUE" if patched2 else "FALSE"}\nCONSTANT OldLen = 0\n'
+                'CONSTANT PBug = "none"\nSPECIFICATION TSpec\nINVARIANT Safe\nINVARIANT End\nCHECK_DEADLOCK FALSE\n')
+    try:
+        res = tlc.run('Trace_Partial', name, workers=1, timeout=300, extra_env={'VZ_IN': fin}, check_ok=False, small=True)
+    finally:
+        os.remove(cfg)
+    run.add_tlc(res, f'Trace_Partial[{label}]')
+    m = re.search(r'<<"END", (\d+), (\d+), "(\w+)">>', res['output'])
+    if res.get('violated') or not m or m.group(1) != m.group(2):
+        at = m.group(1) if m else '?'
+        nxt = ev[int(at)] if m and int(at) < len(ev) else None
+        run.drift(f'{label}: the recorded write sequence is not a behaviour of SgzPartial (consumed {at} of {len(ev)} events; next {nxt}; violated {res.get("violated")})')
+    else:
+        run.traces_validated += 1
+
+
 def run(run):
     rng = np.random.default_rng(run.seed)
     quick = run.tier == 'quick'
     run.mc('MC_Reader', 'MC_Reader_C18_quick' if quick else 'MC_Reader_C18_thorough')
+    run.mc('MC_Partial', 'MC_Partial_a')
+    run.mc('MC_Partial', 'MC_Partial_b')
     d = env.subdir('c18')
     S_all, items = [], []
     for si, (label, thunk) in enumerate(sources(run)):
@@ -251,6 +312,7 @@ def run(run):
             f.write(decoy)
         with wseam.recording(p) as rec2:
             thunk(p)
+        validate_write_trace(run, label, rec2.writes(), fc.layout, rec2.initial)
         if rec2.initial:
             w2 = rec2.writes()
             idx2 = sorted(set([1, 2, len(w2) // 2, max(1, len(w2) - 3)]))
